@@ -207,3 +207,23 @@ def _flush(m, args, raw):
     if sink is not None:
         sink.flushes += 1
     return Ok(UNIT)
+
+
+@model("format", "fmt::format")
+def _format(m, args, raw):
+    """alloc::fmt::format: the String core::fmt::write produces. Where an argument has no Display model (diagnostics built from errors etc.) the
+    result stays opaque, as before - nothing that matters to a check may then depend on it (text_of refuses an opaque value)."""
+    fa = deref(args[0])
+    if not isinstance(fa, Struct) or fa.ty != "FmtArguments":
+        return Opaque("fmt")
+    sink = Sink()
+    try:
+        render(m, sink, fa)
+    except Unsupported:
+        return Opaque("fmt")
+    if all(isinstance(b, int) for b in sink.bytes):
+        try:
+            return RStr(bytes(sink.bytes).decode())
+        except UnicodeDecodeError:
+            return Opaque("fmt")
+    return SymStr(sink.bytes)
